@@ -25,7 +25,7 @@ EXPLANATION = (
     "added on every path to the next section, compact arrays get sub-index 0 (UNSIGNED8) and the template at 1, name "
     "lists cover 1..NrOfEntries, comments/bit rate/baud-rate options/DeviceInfo stores; R11 implicit array members "
     "(sub-indices 1..255, template = sub-index 1, attribute list, parent link), copy_variable changes only name and "
-    "sub-index, the indirect-type threshold leaves every standard type code alone."
+    "sub-index, the indirect-type threshold leaves every standard type code alone. R12 no class-level mutable object is mutated in place by instances (each node/client/map/dictionary has its own state)."
 )
 ASSUMPTIONS = [
     "not decided: fidelity for every EDS text; configparser semantics are the trusted base",
@@ -552,6 +552,10 @@ def run(chk):
     chk.check(fio.canon("suffix in ('.eds', '.dcf')") in tests, "R9", f"{OD}:import_od | .eds and .dcf", io.loc(), f"{tests}")
     c = [x for x in ast.walk(io.node) if isinstance(x, ast.Call) and dotted(x.func) == "eds.import_eds"]
     chk.check(len(c) == 1 and [src(a) for a in c[0].args] == ["source", "node_id"], "R9", f"{OD}:import_od | source and node id passed on", io.loc(), "")
+
+    # ------------------------------------------------------------------ R12 instances are independent (shared clause)
+    from . import shared as _shared
+    _shared.isolation(chk, "R12", rels=['canopen/objectdictionary/__init__.py', 'canopen/objectdictionary/eds.py'])
 
 
 PROBES = ["1A00", "1a00", "00ff", "1A000", "1A0", "x1A00", "1A00 ", "1A00sub1", "1A00Sub1", "1a00subFF", "1A00sub", "1A00subG", "1A00sub1x", "x1A00sub1",
